@@ -845,32 +845,27 @@ private:
   /**
    * Given lhs := ite(cond, b1, b2)
    *
-   * if b1 is false then
-   *    if lhs becomes true then not(cond) and b2 must be true
+   * if b1 is true and b2 is false then lhs is cond
    *
-   * if b2 is false then
-   *    if lhs becomes true then cond and b1 must be true
+   * if b1 is false and b2 is true then lhs is not(cond)
+   *
+   * The constraint remembered for a Boolean variable is negated when
+   * the variable is negated (see propagate_assign_bool_var) so it
+   * must be equivalent to the variable, not only implied by it. For
+   * this reason, if b2 is false but b1 is unknown (lhs is "cond and
+   * b1") we do not remember for lhs the constraints of cond and b1
+   * and, if b1 is false but b2 is unknown (lhs is "not(cond) and
+   * b2"), those of not(cond) and b2. The fact that lhs implies cond
+   * and b1 (resp. b2) is remembered in m_bool_to_bools.
    **/
   template<class BoolToCstEnv>
   void propagate_select_bool(BoolToCstEnv &env,
 			     const boolean_value &b1_val, const boolean_value &b2_val,   
-			     const variable_t &lhs, const variable_t &cond,
-			     const variable_t &b1, const variable_t &b2) {
-    // lhs := true false true
-    if (b2_val.is_false()) {
-      // if lhs becomes true later then cond and b1 must be true
-      env.set(lhs, env.at(cond) & env.at(b1));
-    } else if (b1_val.is_false()) {
-      // if lhs becomes true later then !cond and b2 must be true
-      auto cond_csts = env.at(cond);
-      if (cond_csts.size() == 1) {
-	auto cst = *(cond_csts.begin());
-	env.set(lhs, typename BoolToCstEnv::mapped_type(cst.negate()) & env.at(b2));
-      } else {
-	// we lost the condition because we cannot negate without
-	// introducing disjunctions.
-	env.set(lhs, env.at(b2));
-      }
+			     const variable_t &lhs, const variable_t &cond) {
+    if (b1_val.is_true() && b2_val.is_false()) {
+      propagate_assign_bool_var(env, lhs, cond, false /*is_negated*/);
+    } else if (b1_val.is_false() && b2_val.is_true()) {
+      propagate_assign_bool_var(env, lhs, cond, true /*is_negated*/);
     }
   }
   
@@ -1544,8 +1539,8 @@ public:
 	fwd_reduction_select_bool(lhs, cond, b1, b2);
 	auto val1 = m_product.first().get_bool(b1);
 	auto val2 = m_product.first().get_bool(b2);
-	propagate_select_bool(m_bool_to_lincsts, val1, val2, lhs, cond, b1, b2);
-	propagate_select_bool(m_bool_to_refcsts, val1, val2, lhs, cond, b1, b2);
+	propagate_select_bool(m_bool_to_lincsts, val1, val2, lhs, cond);
+	propagate_select_bool(m_bool_to_refcsts, val1, val2, lhs, cond);
 	if (val2.is_false()) {
 	  m_bool_to_bools.set(lhs,
 			      m_bool_to_bools.at(b1) & m_bool_to_bools.at(cond) &
